@@ -12,6 +12,22 @@ SW = "failure_detector::SamplingWindow"
 HASHSET_IDS = "&std::collections::HashSet<&types::ChitchatId>"
 
 
+A.ROLE_HINTS.update({
+    "recv_admission": "check_delta_status", "recv_apply": "apply_delta", "set_versioned_value": "set_versioned_value",
+    "compute_delta": "compute_partial_delta_respecting_mtu", "compute_digest": "compute_digest", "cluster_apply": "apply_delta",
+    "node_digest": "digest", "staleness_score": "staleness_score", "offer": "offer", "stale_kvs": "stale_key_values",
+    "ns_stale_kvs": "stale_key_values", "try_set_heartbeat": "try_set_heartbeat", "ns_gc": "gc_keys_marked_for_deletion",
+    "cs_gc": "gc_keys_marked_for_deletion", "node_state_mut_or_init": "node_state_mut_or_init", "node_state_mut": "node_state_mut",
+    "remove_node": "remove_node", "last_heartbeat_if_deleted": "last_heartbeat_if_deleted", "ser_new": "with_mtu",
+    "ser_add_node": "try_add_node", "ser_add_kv": "try_add_kv", "ser_set_max": "try_set_max_version", "ser_add_op": "try_add_op",
+    "ser_finish": "finish", "builder_apply_op": "apply_op", "builder_finish": "finish", "process_message": "process_message",
+    "process_delta": "process_delta", "report_heartbeat": "report_heartbeat", "report_heartbeats_in_digest": "report_heartbeats_in_digest",
+    "create_syn": "create_syn_message", "self_node_state": "self_node_state", "catchup": "reset_node_state_if_update",
+    "chitchat_compute_digest": "compute_digest", "fd_garbage_collect": "garbage_collect",
+    "fd_get_or_create_window": "get_or_create_sampling_window", "fd_phi": "phi", "sw_phi": "phi", "sw_new": "new",
+})
+
+
 class Roles:
     def __init__(self, fx):
         self.fx = fx
